@@ -19,6 +19,8 @@ def own_nodes(fn):
     while stack:
         n = stack.pop()
         yield n
+        if isinstance(n, (ast.FunctionDef, ast.AsyncFunctionDef, ast.Lambda, ast.ClassDef)):
+            continue      # a nested definition: its body belongs to another unit
         for c in ast.iter_child_nodes(n):
             if isinstance(c, (ast.FunctionDef, ast.Lambda, ast.ClassDef)):
                 continue
